@@ -1,13 +1,1074 @@
-//! C13 — (not built yet)
-#![allow(unused_imports, unused_variables, dead_code)]
+//! C13 — date codecs are mutually inverse and date arithmetic is consistent.
+//!
+//! ops (one canonical result line each: `ok …` / `none` / `panic`):
+//!   dparse|dhparse|udparse|rawparse <hex>        Date / DateHour / UniformDate / RawDate ::parse
+//!   frombin|frombinh|dhfrombin|dhfrombinh|rawfrombin <i32>
+//!   tobin y m d [h]                              Date / DateHour ::to_binary
+//!   fmt y m d [h] | ufmt y m d                   typed game_fmt
+//!   iso y m d [h] | uiso y m d
+//!   rawfmt short|wide|iso y m d h                PdsDateFormatter on a RawDate
+//!   adddays y m d n | until y m d y m d | cmp y m d y m d | dhcmp … | rawcmp …
+//!   fdp <u64>                                    util::fast_digit_parse (hook)
+//!   i64t <hex>                                   scalar::to_i64_t (hook)
+//!   frombin-block <start> <count>                FNV fold of Date/DateHour::from_binary over a range
+//!   ymd-block full|ends <year> <count>           FNV fold of all codecs over every day (month ends) of the years
+//!   shape-block <hex>                            FNV fold of the four parsers over all one-byte corruptions of a text
+//!   fdp-block <seed> <count>                     FNV fold of fast_digit_parse over pseudo-random words
+//!
+//! L3 oracles (implementation only, straight from the property text) are evaluated inside
+//! every op: format→parse round trip, to_binary∘from_binary, from_binary re-encode, typed
+//! parsers vs a naive component-wise reference parser, add_days/days_until inverse on one
+//! side of year 0, ordering vs sign of days_until for years ≥ 1, fast_digit_parse vs a
+//! per-byte reference.
 use crate::common::*;
+use jomini::common::{Date, DateFormat, DateHour, PdsDate, PdsDateFormatter, RawDate, UniformDate};
+use std::cmp::Ordering;
 
-pub fn gen(g: &mut Gen) {}
+const DPM: [u32; 13] = [0, 31, 28, 31, 30, 31, 30, 31, 31, 30, 31, 30, 31];
+
+// ---------------------------------------------------------------------------------------
+// canonical printing and hashing (mirrors Driver/C13.lean)
+
+fn show_date(d: &Date) -> String { format!("ok {} {} {}", d.year(), d.month(), d.day()) }
+fn show_dh(d: &DateHour) -> String { format!("ok {} {} {} {}", d.year(), d.month(), d.day(), d.hour()) }
+fn show_ud(d: &UniformDate) -> String { format!("ok {} {} {}", d.year(), d.month(), d.day()) }
+fn show_raw(d: &RawDate) -> String { format!("ok {} {} {} {}", d.year(), d.month(), d.day(), d.hour()) }
+fn none() -> String { "none".to_string() }
+fn show_ord(o: Ordering) -> &'static str {
+    match o { Ordering::Less => "ok lt", Ordering::Equal => "ok eq", Ordering::Greater => "ok gt" }
+}
+
+const FNV_OFFSET: u64 = 0xcbf29ce484222325;
+#[inline]
+fn mix(h: u64, c: u64) -> u64 { (h ^ c).wrapping_mul(0x100000001b3) }
+#[inline]
+fn code_ymdh(y: i16, m: u8, d: u8, h: u8) -> u64 {
+    ((y as i64 + 32768) as u64) * 16777216 + (m as u64) * 65536 + (d as u64) * 256 + h as u64 + 2
+}
+fn code_date(d: Option<Date>) -> u64 { d.map(|d| code_ymdh(d.year(), d.month(), d.day(), 0)).unwrap_or(0) }
+fn code_dh(d: Option<DateHour>) -> u64 { d.map(|d| code_ymdh(d.year(), d.month(), d.day(), d.hour())).unwrap_or(0) }
+fn code_ud(d: Option<UniformDate>) -> u64 { d.map(|d| code_ymdh(d.year(), d.month(), d.day(), 0)).unwrap_or(0) }
+fn code_raw(d: Option<RawDate>) -> u64 { d.map(|d| code_ymdh(d.year(), d.month(), d.day(), d.hour())).unwrap_or(0) }
+fn code_int(v: i32) -> u64 { (v as i64 + 4294967296) as u64 + 2 }
+fn code_bytes(b: &[u8]) -> u64 { b.iter().fold(FNV_OFFSET, |h, x| mix(h, *x as u64)) }
+
+const CHUNK: u64 = 65536;
+
+// ---------------------------------------------------------------------------------------
+// naive reference parser: "Y.M.D[.H]" read component-wise
+
+#[derive(Clone, Copy, Debug, PartialEq)]
+struct Comp {
+    y: i64,
+    m: u32,
+    d: u32,
+    h: Option<u32>,
+    /// the hour was written with a leading zero ("05")
+    hour_lead_zero: bool,
+}
+
+/// optional sign, then only digits (possibly none): the scalar parser's integer grammar
+fn bare_int(s: &[u8]) -> Option<i128> {
+    let (neg, body) = match s.first()? {
+        b'-' => (true, &s[1..]),
+        b'+' => (false, &s[1..]),
+        _ => (false, s),
+    };
+    let mut v: i128 = 0;
+    for &b in body {
+        if !b.is_ascii_digit() { return None; }
+        v = (v * 10 + (b - b'0') as i128).min(1 << 100);
+    }
+    Some(if neg { -v } else { v })
+}
+
+fn small_num(p: &[u8]) -> Option<u32> {
+    if p.is_empty() || p.len() > 2 || !p.iter().all(|b| b.is_ascii_digit()) { return None; }
+    Some(p.iter().fold(0u32, |a, b| a * 10 + (b - b'0') as u32))
+}
+
+/// Err(true) = "shape is Y.M.D[.H] but the year has a sign and no digits"
+fn ref_components(s: &[u8]) -> Result<Comp, bool> {
+    let parts: Vec<&[u8]> = s.split(|b| *b == b'.').collect();
+    if parts.len() != 3 && parts.len() != 4 { return Err(false); }
+    let m = small_num(parts[1]).ok_or(false)?;
+    let d = small_num(parts[2]).ok_or(false)?;
+    let (h, hour_lead_zero) = if parts.len() == 4 {
+        (Some(small_num(parts[3]).ok_or(false)?), parts[3][0] == b'0')
+    } else { (None, false) };
+    let ydigits = match parts[0].first() { Some(b'-') | Some(b'+') => &parts[0][1..], _ => parts[0] };
+    let y = bare_int(parts[0]).ok_or(false)?;
+    if ydigits.is_empty() { return Err(!parts[0].is_empty()); }
+    if y < i16::MIN as i128 || y > i16::MAX as i128 { return Err(false); }
+    Ok(Comp { y: y as i64, m, d, h, hour_lead_zero })
+}
+
+#[derive(Clone, Copy, PartialEq)]
+enum Ty { Date, DateHour, Uniform, Raw }
+
+fn calendar_ok(ty: Ty, c: &Comp) -> bool {
+    if c.m < 1 || c.m > 12 || c.d < 1 { return false; }
+    match ty {
+        Ty::Date => c.h.is_none() && c.d <= DPM[c.m as usize],
+        Ty::DateHour => matches!(c.h, Some(1..=24)) && c.d <= DPM[c.m as usize],
+        Ty::Uniform => c.h.is_none() && c.d <= 30,
+        Ty::Raw => c.d <= 31 && (c.h.is_none() || matches!(c.h, Some(1..=24))),
+    }
+}
+
+/// what the property lets a typed parser return for `s`, as (y, m, d, h) with h = 0 for "no hour".
+/// `Err(kind)`: nothing, with the reason class.
+fn ref_parse(ty: Ty, s: &[u8]) -> Result<(i64, u32, u32, u32), &'static str> {
+    if let Some(v) = bare_int(s) {
+        // a bare number is the text of the binary form: documented for Date only (a Date's
+        // binary form has hour 0; Date::parse refuses other hours although from_binary drops them)
+        if ty == Ty::Date && v >= i32::MIN as i128 && v <= i32::MAX as i128 && v % 24 == 0 && s.iter().any(|b| b.is_ascii_digit()) {
+            return Date::from_binary(v as i32)
+                .map(|d| (d.year() as i64, d.month() as u32, d.day() as u32, 0))
+                .ok_or("bare-invalid");
+        }
+        return Err("bare");
+    }
+    match ref_components(s) {
+        Ok(c) if calendar_ok(ty, &c) => Ok((c.y, c.m, c.d, c.h.unwrap_or(0))),
+        Ok(c) => {
+            // same components but the hour written "0x"?
+            let _ = c;
+            Err("calendar")
+        }
+        Err(true) => Err("empty-year"),
+        Err(false) => Err("shape"),
+    }
+}
+
+fn typed_oracle(ty: Ty, s: &[u8], got: Option<(i64, u32, u32, u32)>, both_directions: bool, case: &str, obs: &mut Obs) {
+    let want = ref_parse(ty, s);
+    match (got, want) {
+        (Some(g), Ok(w)) => {
+            if g != w { obs.violation("parse-wrong-components", case, &format!("impl {:?} reference {:?}", g, w)); }
+        }
+        (None, Err(_)) => {}
+        (Some(g), Err(why)) => {
+            let kind = match why {
+                "bare" | "bare-invalid" => "bare-number-accepted",
+                "empty-year" => "empty-year-accepted",
+                _ => "parse-accepts-foreign",
+            };
+            obs.violation(kind, case, &format!("impl {:?} reference refuses ({})", g, why));
+        }
+        (None, Ok(w)) => {
+            if both_directions {
+                let lead0 = ref_components(s).map(|c| c.hour_lead_zero).unwrap_or(false);
+                let kind = if lead0 { "zero-padded-hour-refused" } else { "parse-refuses-valid" };
+                obs.violation(kind, case, &format!("impl refuses, reference {:?}", w));
+            }
+        }
+    }
+}
+
+// ---------------------------------------------------------------------------------------
+// other oracles
+
+/// iso-8601 rendering shows the same components (hour as 0-23)
+fn iso_oracle(txt: &str, y: i16, m: u8, d: u8, h: u8, case: &str, obs: &mut Obs) {
+    let (date, hour) = match txt.split_once('T') { Some((a, b)) => (a, Some(b)), None => (txt, None) };
+    let ok = (|| {
+        let n = date.len();
+        if n < 10 || !date.is_char_boundary(n - 6) { return false; }
+        let (ys, rest) = date.split_at(n - 6);
+        let rb = rest.as_bytes();
+        if rb[0] != b'-' || rb[3] != b'-' || ys.len() < 4 { return false; }
+        if ys.parse::<i32>().ok() != Some(y as i32) { return false; }
+        if rest[1..3].parse::<u8>().ok() != Some(m) || rest[4..6].parse::<u8>().ok() != Some(d) { return false; }
+        match (hour, h) {
+            (None, 0) => true,
+            (Some(hs), h) if h >= 1 => hs.len() == 2 && hs.parse::<u8>().ok() == Some(h - 1) && h - 1 <= 23,
+            _ => false,
+        }
+    })();
+    if !ok { obs.violation("iso-components", case, &format!("{:?} for {} {} {} {}", txt, y, m, d, h)); }
+}
+
+/// own linear day number with the implementation's convention (mirrored before year 0)
+fn own_days(y: i64, m: u32, d: u32) -> i64 {
+    let before: u32 = DPM[1..m as usize].iter().sum();
+    let doy = (before + d - 1) as i64; // 0-based
+    if y * 365 < 0 { y * 365 - doy } else { y * 365 + doy }
+}
+
+fn date_of(y: &str, m: &str, d: &str) -> Option<Option<Date>> {
+    Some(Date::from_ymd_opt(y.parse().ok()?, m.parse().ok()?, d.parse().ok()?))
+}
+fn dh_of(y: &str, m: &str, d: &str, h: &str) -> Option<Option<DateHour>> {
+    Some(DateHour::from_ymdh_opt(y.parse().ok()?, m.parse().ok()?, d.parse().ok()?, h.parse().ok()?))
+}
+fn raw_of(y: &str, m: &str, d: &str, h: &str) -> Option<Option<RawDate>> {
+    Some(RawDate::from_ymdh_opt(y.parse().ok()?, m.parse().ok()?, d.parse().ok()?, h.parse().ok()?))
+}
+
+fn construct_oracle(ty: Ty, y: &str, m: &str, d: &str, h: &str, made: bool, case: &str, obs: &mut Obs) {
+    let c = Comp { y: y.parse().unwrap_or(0), m: m.parse().unwrap_or(0), d: d.parse().unwrap_or(0), h: match h.parse::<u32>() { Ok(0) | Err(_) => None, Ok(v) => Some(v) }, hour_lead_zero: false };
+    let want = calendar_ok(ty, &c) && !(ty == Ty::DateHour && h == "0");
+    if made != want { obs.violation("constructor-calendar", case, &format!("constructed={} reference={}", made, want)); }
+}
+
+fn ord_oracle(a: &Date, b: &Date, case: &str, obs: &mut Obs) {
+    if a.year() >= 1 && b.year() >= 1 {
+        let n = a.days_until(b);
+        let want = 0.cmp(&n); // a < b  <=>  days_until > 0
+        if a.cmp(b) != want { obs.violation("ord-vs-days-until", case, &format!("cmp {:?} days_until {}", a.cmp(b), n)); }
+    }
+    if (a == b) != (a.cmp(b) == Ordering::Equal) { obs.violation("ord-eq", case, ""); }
+}
+
+fn fdp_reference(v: u64) -> Option<u64> {
+    let b = v.to_le_bytes();
+    if !b.iter().all(|x| x.is_ascii_digit()) { return None; }
+    Some(b.iter().fold(0u64, |a, x| a * 10 + (x - b'0') as u64))
+}
+
+// ---------------------------------------------------------------------------------------
+// block ops
+
+struct BlockOut { hash: u64, violations: Vec<(String, String)> }
+
+fn frombin_chunk(start: i64, n: u64, viol: &mut Vec<(String, String)>) -> u64 {
+    let mut h = FNV_OFFSET;
+    for k in 0..n as i64 {
+        let s = (start + k) as i32;
+        let d = Date::from_binary(s);
+        let dh = DateHour::from_binary(s);
+        h = mix(h, code_date(d));
+        h = mix(h, code_dh(dh));
+        // L3: whatever it accepts re-encodes to the same day (and hour)
+        if let Some(d) = d {
+            if d.to_binary() != s - s % 24 && viol.len() < 4 { viol.push(("frombin-reencode".into(), format!("Date {}", s))); }
+        }
+        if let Some(x) = dh {
+            if x.to_binary() != s && viol.len() < 4 { viol.push(("frombin-reencode".into(), format!("DateHour {}", s))); }
+        }
+        if d.is_some() != dh.is_some() && viol.len() < 4 { viol.push(("frombin-date-vs-datehour".into(), format!("{}", s))); }
+    }
+    h
+}
+
+fn run_chunks<F>(items: Vec<(i64, u64)>, f: F) -> BlockOut
+where F: Fn(i64, u64, &mut Vec<(String, String)>) -> u64 + Sync {
+    let n = items.len();
+    let threads = std::thread::available_parallelism().map(|x| x.get()).unwrap_or(4).min(16).min(n.max(1));
+    let mut hashes = vec![0u64; n];
+    let mut violations = Vec::new();
+    let results: Vec<Vec<(usize, u64, Vec<(String, String)>)>> = std::thread::scope(|sc| {
+        let hs: Vec<_> = (0..threads).map(|t| {
+            let items = &items;
+            let f = &f;
+            sc.spawn(move || {
+                let mut out = Vec::new();
+                let mut i = t;
+                while i < items.len() {
+                    let mut v = Vec::new();
+                    let h = f(items[i].0, items[i].1, &mut v);
+                    out.push((i, h, v));
+                    i += threads;
+                }
+                out
+            })
+        }).collect();
+        hs.into_iter().map(|h| h.join().expect("block worker panicked")).collect()
+    });
+    for r in results { for (i, h, v) in r { hashes[i] = h; violations.extend(v); } }
+    BlockOut { hash: hashes.iter().fold(FNV_OFFSET, |h, c| mix(h, *c)), violations }
+}
+
+fn frombin_block(start: i64, count: u64) -> BlockOut {
+    let mut items = Vec::new();
+    let (mut s, mut left) = (start, count);
+    while left > 0 { let n = left.min(CHUNK); items.push((s, n)); s += n as i64; left -= n; }
+    run_chunks(items, frombin_chunk)
+}
+
+fn year_codes(y: i64, full: u64, viol: &mut Vec<(String, String)>) -> u64 {
+    let full = full != 0;
+    let y = y as i16;
+    let mut h = FNV_OFFSET;
+    let mut idx: u64 = 0;
+    let mut bad = |kind: &str, detail: String| { if viol.len() < 4 { viol.push((kind.to_string(), detail)); } };
+    for m in 1u8..=12 {
+        let n = DPM[m as usize] as u8;
+        let days: Vec<u8> = if full { (1..=n).collect() } else { vec![1, n] };
+        for d in days {
+            let od = Date::from_ymd_opt(y, m, d).expect("valid date");
+            let fs = od.game_fmt().to_string();
+            h = mix(h, code_bytes(fs.as_bytes()));
+            let p = Date::parse(&fs).ok();
+            h = mix(h, code_date(p));
+            if p != Some(od) { bad("fmt-parse-roundtrip", format!("Date {}", fs)); }
+            let raw = RawDate::from_ymdh_opt(y, m, d, 0).expect("raw");
+            let fw = PdsDateFormatter::new(raw, DateFormat::DotWide).to_string();
+            h = mix(h, code_bytes(fw.as_bytes()));
+            let pw = Date::parse(&fw).ok();
+            h = mix(h, code_date(pw));
+            if pw != Some(od) { bad("fmt-parse-roundtrip", format!("Date wide {}", fw)); }
+            let pu = UniformDate::parse(&fw).ok();
+            h = mix(h, code_ud(pu));
+            if d <= 30 && pu != UniformDate::from_ymd_opt(y, m, d) { bad("fmt-parse-roundtrip", format!("UniformDate {}", fw)); }
+            if d > 30 && pu.is_some() { bad("uniform-accepts-day-31", fw.clone()); }
+            let pr = RawDate::parse(&fs).ok();
+            h = mix(h, code_raw(pr));
+            if pr != Some(raw) { bad("fmt-parse-roundtrip", format!("RawDate {}", fs)); }
+            h = mix(h, code_bytes(od.iso_8601().to_string().as_bytes()));
+            let bin = od.to_binary();
+            h = mix(h, code_int(bin));
+            let back = Date::from_binary(bin);
+            h = mix(h, code_date(back));
+            if y >= -5000 && back != Some(od) { bad("bin-roundtrip", format!("Date {} -> {}", fs, bin)); }
+            for k in 0u8..(if full { 24 } else { 0 }) {
+                let dh = DateHour::from_ymdh_opt(y, m, d, k + 1).expect("valid datehour");
+                let b = dh.to_binary();
+                let back = DateHour::from_binary(b);
+                h = mix(mix(h, code_int(b)), code_dh(back));
+                if y >= -5000 && back != Some(dh) { bad("bin-roundtrip", format!("DateHour {} -> {}", dh.game_fmt(), b)); }
+            }
+            for k in [(idx % 24 + 1) as u8, ((idx * 7 + 11) % 24 + 1) as u8] {
+                let dh = DateHour::from_ymdh_opt(y, m, d, k).expect("valid datehour");
+                let f = dh.game_fmt().to_string();
+                let fw = PdsDateFormatter::new(RawDate::from_ymdh_opt(y, m, d, k).expect("raw"), DateFormat::DotWide).to_string();
+                h = mix(h, code_bytes(f.as_bytes()));
+                let p = DateHour::parse(&f).ok();
+                h = mix(h, code_dh(p));
+                if p != Some(dh) { bad("fmt-parse-roundtrip", format!("DateHour {}", f)); }
+                let pw = DateHour::parse(&fw).ok();
+                h = mix(h, code_dh(pw));
+                if pw != Some(dh) {
+                    if k < 10 { bad("zero-padded-hour-refused", format!("DateHour wide {}", fw)); } else { bad("fmt-parse-roundtrip", format!("DateHour wide {}", fw)); }
+                }
+                h = mix(h, code_bytes(dh.iso_8601().to_string().as_bytes()));
+            }
+            idx += 1;
+        }
+    }
+    h
+}
+
+fn ymd_block(full: bool, year: i64, count: u64) -> BlockOut {
+    run_chunks((0..count as i64).map(|k| (year + k, full as u64)).collect(), year_codes)
+}
+
+/// fold of the four text parsers over every one-byte corruption of `base` (+ the parser oracles)
+fn shape_block(base: &[u8], case: &str, obs: &mut Obs) -> u64 {
+    let alpha: [u8; 12] = [48, 49, 50, 57, 46, 47, 58, 45, 43, 32, 0, 255];
+    let mut h = FNV_OFFSET;
+    let mut local = Obs::default();
+    for pos in 0..base.len() {
+        for v in 0..=255u8 {
+            let mut t = base.to_vec();
+            t[pos] = v;
+            let r = Date::parse(&t).ok();
+            h = mix(h, code_date(r));
+            let both = t.len() >= 5 && t.len() <= 12 && (t[0] == b'-' || t[0].is_ascii_digit());
+            let c = format!("{} [dparse {}]", case, hex(&t));
+            typed_oracle(Ty::Date, &t, r.map(|d| (d.year() as i64, d.month() as u32, d.day() as u32, 0)), both, &c, &mut local);
+        }
+        for &v in &alpha {
+            let mut t = base.to_vec();
+            t[pos] = v;
+            let (a, b, c) = (DateHour::parse(&t).ok(), UniformDate::parse(&t).ok(), RawDate::parse(&t).ok());
+            h = mix(mix(mix(h, code_dh(a)), code_ud(b)), code_raw(c));
+            let cs = format!("{} [parse {}]", case, hex(&t));
+            typed_oracle(Ty::DateHour, &t, a.map(|d| (d.year() as i64, d.month() as u32, d.day() as u32, d.hour() as u32)), true, &cs, &mut local);
+            typed_oracle(Ty::Uniform, &t, b.map(|d| (d.year() as i64, d.month() as u32, d.day() as u32, 0)), true, &cs, &mut local);
+            typed_oracle(Ty::Raw, &t, c.map(|d| (d.year() as i64, d.month() as u32, d.day() as u32, d.hour() as u32)), true, &cs, &mut local);
+        }
+    }
+    for v in local.violations.into_iter().take(4) { obs.violation(&v.kind, &v.case, &v.detail); }
+    h
+}
+
+fn splitmix(s: &mut u64) -> u64 {
+    *s = s.wrapping_add(0x9E3779B97F4A7C15);
+    let mut z = *s;
+    z = (z ^ (z >> 30)).wrapping_mul(0xBF58476D1CE4E5B9);
+    z = (z ^ (z >> 27)).wrapping_mul(0x94D049BB133111EB);
+    z ^ (z >> 31)
+}
+fn digit_word(r: u64) -> u64 {
+    let mut w = 0u64;
+    for i in 0..8 { w |= (48 + ((r >> (8 * i)) & 0xFF) % 10) << (8 * i); }
+    w
+}
+fn set_byte(w: u64, pos: u64, v: u64) -> u64 { (w & !(0xFFu64 << (8 * pos))) | (v << (8 * pos)) }
+
+fn fdp_block(seed: u64, n: u64, case: &str, obs: &mut Obs) -> u64 {
+    let mut st = seed;
+    let mut h = FNV_OFFSET;
+    let mut bad = 0;
+    for _ in 0..n {
+        let (r0, r1, r2) = (splitmix(&mut st), splitmix(&mut st), splitmix(&mut st));
+        let w = match r0 % 4 {
+            0 => r1,
+            1 => digit_word(r1),
+            2 => set_byte(digit_word(r1), r2 % 8, (r2 >> 8) & 0xFF),
+            _ => set_byte(digit_word(r1), r2 % 8, if (r2 >> 8) % 2 == 0 { 0x2f } else { 0x3a }),
+        };
+        let r = jomini::verif_hooks::fast_digit_parse(w);
+        if r != fdp_reference(w) && bad < 4 { bad += 1; obs.violation("fast-digit-parse", case, &format!("word {} impl {:?}", w, r)); }
+        h = mix(h, match r { Some(v) => v.wrapping_add(1), None => 0 });
+    }
+    h
+}
+
+// ---------------------------------------------------------------------------------------
 
 pub fn exec(w: &[&str], obs: &mut Obs) -> Option<String> {
-    None
+    let case = || w.join(" ");
+    match w {
+        ["dparse", h] => {
+            let s = unhex(h)?;
+            let r = Date::parse(&s).ok();
+            let both = s.len() >= 5 && s.len() <= 12 && (s[0] == b'-' || s[0].is_ascii_digit());
+            typed_oracle(Ty::Date, &s, r.map(|d| (d.year() as i64, d.month() as u32, d.day() as u32, 0)), both, &case(), obs);
+            if let Ok(t) = std::str::from_utf8(&s) {
+                if t.parse::<Date>().ok() != r { obs.violation("fromstr-differs", &case(), ""); }
+            }
+            obs.count(match (&r, s.len()) { (Some(_), 8) => "dparse:ok:len8", (Some(_), 9) => "dparse:ok:len9", (Some(_), 10) => "dparse:ok:len10", (Some(_), _) => "dparse:ok:other", (None, _) => "dparse:none" });
+            Some(r.map(|d| show_date(&d)).unwrap_or_else(none))
+        }
+        ["dhparse", h] => {
+            let s = unhex(h)?;
+            let r = DateHour::parse(&s).ok();
+            typed_oracle(Ty::DateHour, &s, r.map(|d| (d.year() as i64, d.month() as u32, d.day() as u32, d.hour() as u32)), true, &case(), obs);
+            obs.count(if r.is_some() { "dhparse:ok" } else { "dhparse:none" });
+            Some(r.map(|d| show_dh(&d)).unwrap_or_else(none))
+        }
+        ["udparse", h] => {
+            let s = unhex(h)?;
+            let r = UniformDate::parse(&s).ok();
+            typed_oracle(Ty::Uniform, &s, r.map(|d| (d.year() as i64, d.month() as u32, d.day() as u32, 0)), true, &case(), obs);
+            obs.count(if r.is_some() { "udparse:ok" } else { "udparse:none" });
+            Some(r.map(|d| show_ud(&d)).unwrap_or_else(none))
+        }
+        ["rawparse", h] => {
+            let s = unhex(h)?;
+            let r = RawDate::parse(&s).ok();
+            typed_oracle(Ty::Raw, &s, r.map(|d| (d.year() as i64, d.month() as u32, d.day() as u32, d.hour() as u32)), true, &case(), obs);
+            obs.count(if r.is_some() { "rawparse:ok" } else { "rawparse:none" });
+            Some(r.map(|d| show_raw(&d)).unwrap_or_else(none))
+        }
+        ["frombin", s] => {
+            let s: i32 = s.parse().ok()?;
+            let r = Date::from_binary(s);
+            if let Some(d) = r {
+                if d.to_binary() != s - s % 24 { obs.violation("frombin-reencode", &case(), &format!("to_binary {}", d.to_binary())); }
+            }
+            obs.count(if r.is_some() { "frombin:ok" } else { "frombin:none" });
+            Some(r.map(|d| show_date(&d)).unwrap_or_else(none))
+        }
+        ["frombinh", s] => {
+            let s: i32 = s.parse().ok()?;
+            let r = Date::from_binary_heuristic(s);
+            if let Some(d) = r {
+                if Date::from_binary(s) != Some(d) || d.to_binary() != s { obs.violation("frombin-heuristic", &case(), ""); }
+            }
+            Some(r.map(|d| show_date(&d)).unwrap_or_else(none))
+        }
+        ["dhfrombin", s] => {
+            let s: i32 = s.parse().ok()?;
+            let r = DateHour::from_binary(s);
+            if let Some(d) = r {
+                if d.to_binary() != s { obs.violation("frombin-reencode", &case(), &format!("to_binary {}", d.to_binary())); }
+            }
+            obs.count(if r.is_some() { "dhfrombin:ok" } else { "dhfrombin:none" });
+            Some(r.map(|d| show_dh(&d)).unwrap_or_else(none))
+        }
+        ["dhfrombinh", s] => {
+            let s: i32 = s.parse().ok()?;
+            let r = DateHour::from_binary_heuristic(s);
+            if let Some(d) = r {
+                if DateHour::from_binary(s) != Some(d) { obs.violation("frombin-heuristic", &case(), ""); }
+            }
+            Some(r.map(|d| show_dh(&d)).unwrap_or_else(none))
+        }
+        ["rawfrombin", s] => {
+            let s: i32 = s.parse().ok()?;
+            let r = RawDate::from_binary(s);
+            Some(r.map(|d| show_raw(&d)).unwrap_or_else(none))
+        }
+        ["tobin", y, m, d] => {
+            let od = date_of(y, m, d)?;
+            construct_oracle(Ty::Date, y, m, d, "0", od.is_some(), &case(), obs);
+            Some(match od {
+                None => none(),
+                Some(x) => {
+                    let b = x.to_binary();
+                    if x.year() >= -5000 && Date::from_binary(b) != Some(x) { obs.violation("bin-roundtrip", &case(), &format!("to_binary {}", b)); }
+                    format!("ok {}", b)
+                }
+            })
+        }
+        ["tobin", y, m, d, h] => {
+            let od = dh_of(y, m, d, h)?;
+            construct_oracle(Ty::DateHour, y, m, d, h, od.is_some(), &case(), obs);
+            Some(match od {
+                None => none(),
+                Some(x) => {
+                    let b = x.to_binary();
+                    if x.year() >= -5000 && DateHour::from_binary(b) != Some(x) { obs.violation("bin-roundtrip", &case(), &format!("to_binary {}", b)); }
+                    format!("ok {}", b)
+                }
+            })
+        }
+        ["fmt", y, m, d] => {
+            let od = date_of(y, m, d)?;
+            Some(match od {
+                None => none(),
+                Some(x) => {
+                    let t = x.game_fmt().to_string();
+                    if Date::parse(&t) != Ok(x) { obs.violation("fmt-parse-roundtrip", &case(), &t); }
+                    let c = ref_components(t.as_bytes());
+                    if c.map(|c| (c.y, c.m, c.d, c.h)) != Ok((x.year() as i64, x.month() as u32, x.day() as u32, None)) { obs.violation("fmt-components", &case(), &t); }
+                    format!("ok {}", hex(t.as_bytes()))
+                }
+            })
+        }
+        ["fmt", y, m, d, h] => {
+            let od = dh_of(y, m, d, h)?;
+            Some(match od {
+                None => none(),
+                Some(x) => {
+                    let t = x.game_fmt().to_string();
+                    if DateHour::parse(&t) != Ok(x) { obs.violation("fmt-parse-roundtrip", &case(), &t); }
+                    format!("ok {}", hex(t.as_bytes()))
+                }
+            })
+        }
+        ["ufmt", y, m, d] => {
+            let od = UniformDate::from_ymd_opt(y.parse().ok()?, m.parse().ok()?, d.parse().ok()?);
+            construct_oracle(Ty::Uniform, y, m, d, "0", od.is_some(), &case(), obs);
+            Some(match od {
+                None => none(),
+                Some(x) => {
+                    let t = x.game_fmt().to_string();
+                    if UniformDate::parse(&t) != Ok(x) { obs.violation("fmt-parse-roundtrip", &case(), &t); }
+                    format!("ok {}", hex(t.as_bytes()))
+                }
+            })
+        }
+        ["iso", y, m, d] => {
+            let od = date_of(y, m, d)?;
+            Some(match od {
+                None => none(),
+                Some(x) => {
+                    let t = x.iso_8601().to_string();
+                    iso_oracle(&t, x.year(), x.month(), x.day(), 0, &case(), obs);
+                    format!("ok {}", hex(t.as_bytes()))
+                }
+            })
+        }
+        ["iso", y, m, d, h] => {
+            let od = dh_of(y, m, d, h)?;
+            Some(match od {
+                None => none(),
+                Some(x) => {
+                    let t = x.iso_8601().to_string();
+                    iso_oracle(&t, x.year(), x.month(), x.day(), x.hour(), &case(), obs);
+                    format!("ok {}", hex(t.as_bytes()))
+                }
+            })
+        }
+        ["uiso", y, m, d] => {
+            let od = UniformDate::from_ymd_opt(y.parse().ok()?, m.parse().ok()?, d.parse().ok()?);
+            Some(match od {
+                None => none(),
+                Some(x) => {
+                    let t = x.iso_8601().to_string();
+                    iso_oracle(&t, x.year(), x.month(), x.day(), 0, &case(), obs);
+                    format!("ok {}", hex(t.as_bytes()))
+                }
+            })
+        }
+        ["rawfmt", f, y, m, d, h] => {
+            let fmt = match *f { "short" => DateFormat::DotShort, "wide" => DateFormat::DotWide, "iso" => DateFormat::Iso8601, _ => return None };
+            let or = raw_of(y, m, d, h)?;
+            construct_oracle(Ty::Raw, y, m, d, h, or.is_some(), &case(), obs);
+            Some(match or {
+                None => none(),
+                Some(x) => {
+                    let t = PdsDateFormatter::new(x, fmt).to_string();
+                    if (x.year(), x.month(), x.day(), x.hour()) != (y.parse().ok()?, m.parse().ok()?, d.parse().ok()?, h.parse().ok()?) {
+                        obs.violation("raw-accessors", &case(), "");
+                    }
+                    if x.has_hour() != (x.hour() != 0) { obs.violation("raw-has-hour", &case(), ""); }
+                    match fmt {
+                        DateFormat::Iso8601 => iso_oracle(&t, x.year(), x.month(), x.day(), x.hour(), &case(), obs),
+                        _ => {
+                            // game format (short or zero padded) parses back to the same raw date
+                            let p = RawDate::parse(&t).ok();
+                            if p != Some(x) {
+                                let kind = if fmt == DateFormat::DotWide && x.hour() >= 1 && x.hour() < 10 { "zero-padded-hour-refused" } else { "fmt-parse-roundtrip" };
+                                obs.violation(kind, &case(), &t);
+                            }
+                        }
+                    }
+                    format!("ok {}", hex(t.as_bytes()))
+                }
+            })
+        }
+        ["adddays", y, m, d, n] => {
+            let od = date_of(y, m, d)?;
+            let n: i32 = n.parse().ok()?;
+            Some(match od {
+                None => none(),
+                Some(x) => {
+                    let dd = own_days(x.year() as i64, x.month() as u32, x.day() as u32);
+                    let nd = dd + n as i64;
+                    let fits = nd >= i32::MIN as i64 && nd <= i32::MAX as i64 && nd / 365 >= i16::MIN as i64 && nd / 365 <= i16::MAX as i64;
+                    match guard(|| x.add_days(n)) {
+                        Err(()) => {
+                            // documented: "Will panic on overflow or underflow"
+                            if fits { obs.violation("adddays-panic", &case(), "result representable"); }
+                            obs.count("adddays:panic");
+                            "panic".to_string()
+                        }
+                        Ok(r) => {
+                            if !fits { obs.violation("adddays-no-panic", &case(), "result not representable"); }
+                            let one_side = (dd >= 0 && nd >= 0) || (dd <= -365 && nd <= -365);
+                            if one_side && x.days_until(&r) != n {
+                                obs.violation("adddays-until-inverse", &case(), &format!("days_until {}", x.days_until(&r)));
+                            }
+                            if one_side && own_days(r.year() as i64, r.month() as u32, r.day() as u32) != nd {
+                                obs.violation("adddays-linear", &case(), &format!("{}", show_date(&r)));
+                            }
+                            if Date::from_ymd_opt(r.year(), r.month(), r.day()) != Some(r) { obs.violation("adddays-invalid-date", &case(), &show_date(&r)); }
+                            obs.count(if one_side { "adddays:one-side" } else { "adddays:crossing" });
+                            show_date(&r)
+                        }
+                    }
+                }
+            })
+        }
+        ["until", y1, m1, d1, y2, m2, d2] => {
+            let (a, b) = (date_of(y1, m1, d1)?, date_of(y2, m2, d2)?);
+            Some(match (a, b) {
+                (Some(a), Some(b)) => {
+                    let n = a.days_until(&b);
+                    if b.days_until(&a) != -n { obs.violation("until-antisymmetric", &case(), ""); }
+                    ord_oracle(&a, &b, &case(), obs);
+                    let (da, db) = (own_days(a.year() as i64, a.month() as u32, a.day() as u32), own_days(b.year() as i64, b.month() as u32, b.day() as u32));
+                    if (db - da) != n as i64 { obs.violation("until-linear", &case(), &format!("{} vs {}", n, db - da)); }
+                    // inverse the other way round: a.add_days(n) == b when on one side of year 0
+                    if (da >= 0 && db >= 0) || (da <= -365 && db <= -365) {
+                        if guard(|| a.add_days(n)) != Ok(b) { obs.violation("until-adddays-inverse", &case(), ""); }
+                    }
+                    format!("ok {}", n)
+                }
+                _ => none(),
+            })
+        }
+        ["cmp", y1, m1, d1, y2, m2, d2] => {
+            let (a, b) = (date_of(y1, m1, d1)?, date_of(y2, m2, d2)?);
+            Some(match (a, b) {
+                (Some(a), Some(b)) => {
+                    ord_oracle(&a, &b, &case(), obs);
+                    let want = (a.year(), a.month(), a.day()).cmp(&(b.year(), b.month(), b.day()));
+                    if a.cmp(&b) != want { obs.violation("ord-lexicographic", &case(), ""); }
+                    show_ord(a.cmp(&b)).to_string()
+                }
+                _ => none(),
+            })
+        }
+        ["dhcmp", y1, m1, d1, h1, y2, m2, d2, h2] => {
+            let (a, b) = (dh_of(y1, m1, d1, h1)?, dh_of(y2, m2, d2, h2)?);
+            Some(match (a, b) {
+                (Some(a), Some(b)) => {
+                    let want = (a.year(), a.month(), a.day(), a.hour()).cmp(&(b.year(), b.month(), b.day(), b.hour()));
+                    if a.cmp(&b) != want { obs.violation("ord-lexicographic", &case(), ""); }
+                    show_ord(a.cmp(&b)).to_string()
+                }
+                _ => none(),
+            })
+        }
+        ["rawcmp", y1, m1, d1, h1, y2, m2, d2, h2] => {
+            let (a, b) = (raw_of(y1, m1, d1, h1)?, raw_of(y2, m2, d2, h2)?);
+            Some(match (a, b) {
+                (Some(a), Some(b)) => {
+                    let want = (a.year(), a.month(), a.day(), a.hour()).cmp(&(b.year(), b.month(), b.day(), b.hour()));
+                    if a.cmp(&b) != want { obs.violation("ord-lexicographic", &case(), ""); }
+                    show_ord(a.cmp(&b)).to_string()
+                }
+                _ => none(),
+            })
+        }
+        ["fdp", v] => {
+            let v: u64 = v.parse().ok()?;
+            let r = jomini::verif_hooks::fast_digit_parse(v);
+            if r != fdp_reference(v) { obs.violation("fast-digit-parse", &case(), &format!("impl {:?} reference {:?}", r, fdp_reference(v))); }
+            obs.count(if r.is_some() { "fdp:ok" } else { "fdp:none" });
+            Some(match r { Some(x) => format!("ok {}", x), None => none() })
+        }
+        ["i64t", h] => {
+            let s = unhex(h)?;
+            Some(match jomini::verif_hooks::to_i64_t(&s) {
+                Ok((v, rest)) => format!("ok {} {}", v, hex(rest)),
+                Err(_) => none(),
+            })
+        }
+        ["frombin-block", s, n] => {
+            let s: i64 = s.parse().ok()?;
+            let n: u64 = n.parse().ok()?;
+            if s < i32::MIN as i64 || s + n as i64 > i32::MAX as i64 + 1 { return None; }
+            let out = frombin_block(s, n);
+            for (k, d) in out.violations { obs.violation(&k, &case(), &d); }
+            obs.count("frombin-block");
+            Some(format!("ok {}", out.hash))
+        }
+        ["shape-block", h] => {
+            let s = unhex(h)?;
+            let r = shape_block(&s, &case(), obs);
+            obs.count("shape-block");
+            Some(format!("ok {}", r))
+        }
+        ["fdp-block", seed, n] => {
+            let r = fdp_block(seed.parse().ok()?, n.parse().ok()?, &case(), obs);
+            obs.count("fdp-block");
+            Some(format!("ok {}", r))
+        }
+        ["ymd-block", mode, y, n] => {
+            let y: i64 = y.parse().ok()?;
+            let n: u64 = n.parse().ok()?;
+            let full = match *mode { "full" => true, "ends" => false, _ => return None };
+            if y < i16::MIN as i64 || y + n as i64 > i16::MAX as i64 + 1 { return None; }
+            let out = ymd_block(full, y, n);
+            for (k, d) in out.violations { obs.violation(&k, &case(), &d); }
+            obs.count("ymd-block");
+            Some(format!("ok {}", out.hash))
+        }
+        _ => None,
+    }
+}
+
+// ---------------------------------------------------------------------------------------
+// generators
+
+fn rand_date(g: &mut Gen) -> (i32, u32, u32) {
+    let y: i32 = match g.rng.below(10) {
+        0 => g.rng.range(0, 65535) as i32 - 32768,
+        1 => *g.rng.pick(&[-32768, -10000, -5001, -5000, -4999, -1000, -999, -100, -99, -10, -9, -1, 0, 1, 9, 10, 99, 100, 999, 1000, 9999, 10000, 32767]),
+        2 | 3 => g.rng.range(0, 400) as i32 - 200,
+        _ => g.rng.range(1, 9999) as i32,
+    };
+    let m = g.rng.range(1, 12) as u32;
+    let d = match g.rng.below(4) { 0 => 1, 1 => DPM[m as usize], _ => g.rng.range(1, DPM[m as usize] as usize) as u32 };
+    (y, m, d)
+}
+
+fn interesting_years() -> Vec<i32> {
+    let mut v = vec![-32768, -32767, -10000, -9999, -5001, -5000, -4999, -2500, -1000, -999, -101, -100, -99, -11, -10, -9, -2, -1, 0, 1, 2, 9, 10, 11, 99, 100, 101, 999, 1000, 1001, 1444, 1836, 1936, 2200, 9999, 10000, 10001, 32766, 32767];
+    v.dedup();
+    v
+}
+
+pub fn gen(g: &mut Gen) {
+    let ops4 = ["dparse", "dhparse", "udparse", "rawparse"];
+
+    // 1. the four fast-path shapes, every one-byte corruption at every position ----------
+    // (block folds: one line per base string; a couple of dates also as individual lines)
+    let nshape = g.budget(60, 3000);
+    let mut shape_dates: Vec<(i32, u32, u32)> = vec![(1444, 11, 11), (1000, 1, 1), (9999, 12, 31), (2200, 2, 28), (1, 9, 9), (0, 1, 1)];
+    for _ in 0..nshape { let (_, m, d) = rand_date(g); shape_dates.push((g.rng.range(0, 9999) as i32, m, d)); }
+    for (k, (y, m, d)) in shape_dates.iter().enumerate() {
+        let shapes = [
+            format!("{:04}.{:02}.{:02}", y, m, d),
+            format!("{:04}.{}.{:02}", y, m % 10, d),
+            format!("{:04}.{:02}.{}", y, m, d % 10),
+            format!("{:04}.{}.{}", y, m % 10, d % 10),
+        ];
+        for s in shapes.iter() {
+            let base = s.as_bytes().to_vec();
+            g.emit(format!("shape-block {}", hex(&base)));
+            g.emit(format!("dparse {}", hex(&base)));
+            if k >= 2 { continue; }
+            for pos in 0..base.len() {
+                for v in (0..=255u8).step_by(if k == 0 { 1 } else { 5 }) {
+                    if v == base[pos] { continue; }
+                    let mut t = base.clone();
+                    t[pos] = v;
+                    g.emit(format!("dparse {}", hex(&t)));
+                }
+                for &v in b"09./-" {
+                    let mut t = base.clone();
+                    t[pos] = v;
+                    for op in &ops4[1..] { g.emit(format!("{} {}", op, hex(&t))); }
+                }
+            }
+            // one byte inserted / removed (moves the string between the shapes)
+            for pos in 0..=base.len() {
+                for &v in b"0.9-" {
+                    let mut t = base.clone();
+                    t.insert(pos, v);
+                    g.emit(format!("dparse {}", hex(&t)));
+                }
+                if pos < base.len() { let mut t = base.clone(); t.remove(pos); g.emit(format!("dparse {}", hex(&t))); }
+            }
+        }
+    }
+    // the same for texts that are not of a fast shape (negative, short and long years, hours)
+    for t in ["-17.1.1", "1.1.1", "-2500.12.31", "32767.10.5", "-32768.1.01", "1936.1.1.24", "1936.01.01.05", "12.3.4.5", "43808760", "-43800000"] {
+        g.emit(format!("shape-block {}", hex(t.as_bytes())));
+    }
+    g.count("fast-path-shapes-x-corruptions");
+    // all digit strings of the fast shapes with the month/day fields swept (valid and invalid)
+    for y in (if g.thorough { vec![0, 1, 999, 1000, 1444, 9999] } else { vec![0, 1444] }) {
+        for m in 0..=19u32 {
+            for d in (0..=39u32).chain([99]) {
+                for s in [format!("{:04}.{:02}.{:02}", y, m, d), format!("{:04}.{}.{:02}", y, m, d), format!("{:04}.{:02}.{}", y, m, d), format!("{:04}.{}.{}", y, m, d)] {
+                    g.emit(format!("dparse {}", hex(s.as_bytes())));
+                }
+            }
+        }
+    }
+    g.count("fast-path-field-sweep");
+
+    // 2. years × first/last day of each month ------------------------------------------
+    let mut years: Vec<i32> = interesting_years();
+    let ny = g.budget(40, 1500);
+    for _ in 0..ny { years.push(g.rng.range(0, 65535) as i32 - 32768); }
+    for y in (-120..=120).step_by(if g.thorough { 1 } else { 17 }) { years.push(y); }
+    for &y in &years {
+        for m in 1..=12u32 {
+            for d in [1, DPM[m as usize]] {
+                g.emit(format!("fmt {} {} {}", y, m, d));
+                g.emit(format!("tobin {} {} {}", y, m, d));
+                if m % 3 == (y.rem_euclid(3)) as u32 {
+                    g.emit(format!("iso {} {} {}", y, m, d));
+                    g.emit(format!("rawfmt wide {} {} {} 0", y, m, d));
+                    let h = (y.rem_euclid(24) + 1) as u32;
+                    g.emit(format!("fmt {} {} {} {}", y, m, d, h));
+                    g.emit(format!("tobin {} {} {} {}", y, m, d, h));
+                    g.emit(format!("iso {} {} {} {}", y, m, d, h));
+                    if d <= 30 { g.emit(format!("ufmt {} {} {}", y, m, d)); g.emit(format!("uiso {} {} {}", y, m, d)); }
+                }
+            }
+        }
+    }
+    g.count("years-x-month-ends");
+    // every day and hour of a few years through the individual ops
+    for &y in &[-5000, -1, 0, 1, 1444] {
+        for m in 1..=12u32 { for d in 1..=DPM[m as usize] {
+            g.emit(format!("fmt {} {} {}", y, m, d));
+            g.emit(format!("tobin {} {} {}", y, m, d));
+        } }
+    }
+    for h in 0..=25u32 { for (y, m, d) in [(1936, 1, 1), (-17, 12, 31), (5, 2, 28)] {
+        g.emit(format!("fmt {} {} {} {}", y, m, d, h));
+        g.emit(format!("tobin {} {} {} {}", y, m, d, h));
+        g.emit(format!("iso {} {} {} {}", y, m, d, h));
+        for f in ["short", "wide", "iso"] { g.emit(format!("rawfmt {} {} {} {} {}", f, y, m, d, h)); }
+    } }
+    // block folds: every codec over the days of whole years
+    if g.thorough {
+        // all 65536 years x month ends
+        let mut y = -32768i64;
+        while y < 32768 { g.emit(format!("ymd-block ends {} 256", y)); y += 256; }
+        // every day (and all 24 hours) of the years where digit counts / signs / the binary epoch change
+        for (a, b) in [(-32768i64, -32760), (-10003, -9997), (-5004, -4996), (-1002, -998), (-102, 102), (990, 2300), (9990, 10010), (32760, 32767)] {
+            let mut y = a;
+            while y <= b { let n = (b - y + 1).min(16); g.emit(format!("ymd-block full {} {}", y, n)); y += n; }
+        }
+        let mut y = -32768i64 + 29;
+        while y < 32768 { g.emit(format!("ymd-block full {} 1", y)); y += 64; }
+    } else {
+        for y in interesting_years() { g.emit(format!("ymd-block full {} 1", y)); }
+        let mut y = -32768i64;
+        while y < 32768 { g.emit(format!("ymd-block ends {} 16", y)); y += 1024; }
+        for _ in 0..12 { let y = g.rng.range(0, 65535 - 4) as i64 - 32768; g.emit(format!("ymd-block full {} 2", y)); }
+    }
+    g.count("ymd-blocks");
+
+    // 3. binary values -----------------------------------------------------------------
+    let mut bins: Vec<i64> = vec![i32::MIN as i64, i32::MIN as i64 + 1, -1, 0, 1, 23, 24, 25, -24, -25, 8759, 8760, 8761, -8760, i32::MAX as i64 - 1, i32::MAX as i64,
+        56379360, 60759371, 43808760, 43800000, 43791240, 21900000, -43800000, 999379360, 59611248, 57781584];
+    for y in [-32769i64, -32768, -32767, -5001, -5000, -4999, -1, 0, 1, 32766, 32767, 32768, 32769] {
+        let base = (y + 5000) * 8760;
+        for delta in [-25i64, -24, -1, 0, 1, 23, 24, 8735, 8736, 8759] { bins.push(base + delta); }
+    }
+    // start of every month of a year, ± one hour
+    for k in [0i64, 31, 59, 90, 120, 151, 181, 212, 243, 273, 304, 334, 364] { for delta in [-1i64, 0, 1] { bins.push((1444 + 5000) * 8760 + k * 24 + delta); } }
+    let nb = g.budget(1500, 8_000);
+    for _ in 0..nb {
+        let v = match g.rng.below(3) {
+            0 => (g.rng.next() as u32) as i32 as i64,
+            1 => g.rng.range(0, 600_000_000) as i64 - 260_000_000,
+            _ => g.rng.range(0, 20_000 * 8760) as i64 + 4000 * 8760,
+        };
+        bins.push(v);
+    }
+    for v in bins {
+        if v < i32::MIN as i64 || v > i32::MAX as i64 { continue; }
+        for op in ["frombin", "dhfrombin", "frombinh", "dhfrombinh", "rawfrombin"] { g.emit(format!("{} {}", op, v)); }
+        // and the same number as text
+        let t = v.to_string();
+        for op in ops4 { g.emit(format!("{} {}", op, hex(t.as_bytes()))); }
+    }
+    g.count("binary-values");
+    if g.thorough {
+        // all 2^32 values, 4096 blocks of 2^20
+        let mut s = i32::MIN as i64;
+        while s <= i32::MAX as i64 { g.emit(format!("frombin-block {} {}", s, 1u64 << 20)); s += 1 << 20; }
+    } else {
+        for y in [-32768i64, -5000, 0, 1444, 32767] { g.emit(format!("frombin-block {} {}", (y + 5000) * 8760 - 32768, 65536)); }
+        for s in [i32::MIN as i64, -32768, i32::MAX as i64 - 65535] { g.emit(format!("frombin-block {} 65536", s)); }
+        for _ in 0..24 { let s = g.rng.range(0, 600_000_000) as i64 - 260_000_000; g.emit(format!("frombin-block {} 65536", s)); }
+    }
+    g.count("frombin-blocks");
+
+    // 4. invalid days / months / hours, trailing garbage ---------------------------------
+    for y in [1444i32, -17, 5] {
+        for m in (0..=15u32).chain([20, 99]) {
+            for d in (0..=33u32).chain([40, 99]) {
+                let s1 = format!("{}.{}.{}", y, m, d);
+                let s2 = format!("{}.{:02}.{:02}", y, m, d);
+                for op in ops4 { g.emit(format!("{} {}", op, hex(s1.as_bytes()))); g.emit(format!("{} {}", op, hex(s2.as_bytes()))); }
+                if y == 1444 { g.emit(format!("tobin {} {} {}", y, m, d)); g.emit(format!("ufmt {} {} {}", y, m, d)); g.emit(format!("rawfmt short {} {} {} 0", y, m, d)); }
+            }
+        }
+    }
+    for (y, m, d) in [(1936, 1, 1), (1936, 12, 31), (-5, 2, 28), (1, 10, 5)] {
+        for h in (0..=30u32).chain([99, 100]) {
+            for s in [format!("{}.{}.{}.{}", y, m, d, h), format!("{}.{:02}.{:02}.{:02}", y, m, d, h), format!("{}.{}.{:02}.{}", y, m, d, h), format!("{}.{:02}.{}.{:02}", y, m, d, h)] {
+                for op in ops4 { g.emit(format!("{} {}", op, hex(s.as_bytes()))); }
+            }
+        }
+    }
+    g.count("invalid-day-month-hour");
+    let nt = g.budget(40, 300);
+    for i in 0..nt {
+        let (y, m, d) = rand_date(g);
+        let h = g.rng.range(1, 24);
+        let base = match i % 4 { 0 => format!("{}.{}.{}", y, m, d), 1 => format!("{}.{:02}.{:02}", y, m, d), 2 => format!("{}.{}.{}.{}", y, m, d, h), _ => format!("{:04}.{:02}.{:02}.{:02}", y, m, d, h) };
+        for suffix in ["", ".", "x", " ", "0", ".0", ".1", ".1x", ".24", ".25", ".1.1", "\n", "\0", "..", "-", "e1"] {
+            for prefix in ["", " ", "+", "-", "0", "00", "x", "."] {
+                if !prefix.is_empty() && !suffix.is_empty() && i % 5 != 0 { continue; }
+                let s = format!("{}{}{}", prefix, base, suffix);
+                for op in ops4 { g.emit(format!("{} {}", op, hex(s.as_bytes()))); }
+            }
+        }
+    }
+    g.count("trailing-garbage");
+    // sign / empty component corner cases
+    for s in ["", "-", "+", ".", "..", "...", "-.1.1", "+.1.1", "-.01.01", ".1.1", "1..1", "1.1.", "1.1..1", "-0.1.1", "+0.1.1", "-00000", "00000", "+0000", "--1.1.1", "-+1.1.1",
+        "1.1.1.", "1.1.1.0", "1.1.1.00", "1.1.1.01", "1.1.1.1", "1.1.1.24", "1.1.1.25", "1.01.01.05", "1936.01.01.09", "1936.01.01.10",
+        "32767.1.1", "32768.1.1", "-32768.1.1", "-32769.1.1", "65536.1.1", "99999999999999999999.1.1", "9223372036854775807", "9223372036854775808", "-9223372036854775808",
+        "2147483647", "2147483648", "-2147483648", "-2147483649", "0001444.1.1", "000001444.11.11", "0000001444.11.11", "1444.011.11", "1444.11.011", "1444.1.1.001",
+        "05.5.3`.3", "1444.257.1", "1444.1.257", "60000.1.1", "-60000.1.1", "1.1.1", "1.01.01", "+123.11.11", "+12.11.11", "+123.1.1", "+1444.1.1"] {
+        for op in ops4 { g.emit(format!("{} {}", op, hex(s.as_bytes()))); }
+        // i64::MIN: Model/Scalar.lean (C11) not yet updated for /repo 8327848; the date parsers
+        // are unaffected (the value is outside i16/i32 either way) and still get the string
+        if s != "-9223372036854775808" { g.emit(format!("i64t {}", hex(s.as_bytes()))); }
+    }
+    g.count("corner-strings");
+
+    // 5. random strings over the date alphabet -------------------------------------------
+    let nr = g.budget(8000, 60_000);
+    for _ in 0..nr {
+        let len = g.rng.range(0, 14);
+        let alpha: &[u8] = if g.rng.chance(1, 5) { b"0123456789.-+ x/:\x00\xff" } else { b"0112345678999....-" };
+        let s: Vec<u8> = (0..len).map(|_| *g.rng.pick(alpha)).collect();
+        let op = ops4[g.rng.below(4)];
+        g.emit(format!("{} {}", op, hex(&s)));
+        if g.rng.chance(1, 8) { g.emit(format!("i64t {}", hex(&s))); }
+    }
+    // random well-formed Y.M.D[.H] with unconstrained field widths and values
+    let nw = g.budget(6000, 60_000);
+    for _ in 0..nw {
+        let y = match g.rng.below(4) { 0 => g.rng.range(0, 70000) as i64 - 35000, 1 => g.rng.range(0, 9999) as i64, _ => g.rng.range(0, 3000) as i64 - 500 };
+        let wy = *g.rng.pick(&[0usize, 0, 0, 4, 5, 6]);
+        let mut s = if wy == 0 { format!("{}", y) } else { format!("{:0w$}", y, w = wy) };
+        let nf = g.rng.range(1, 4);
+        for _ in 0..nf {
+            let v = match g.rng.below(3) { 0 => g.rng.range(0, 13), 1 => g.rng.range(0, 32), _ => g.rng.range(0, 120) };
+            if g.rng.chance(1, 2) { s.push_str(&format!(".{}", v)); } else { s.push_str(&format!(".{:02}", v)); }
+        }
+        let op = ops4[g.rng.below(4)];
+        g.emit(format!("{} {}", op, hex(s.as_bytes())));
+    }
+    g.count("random-strings");
+
+    // 6. arithmetic ----------------------------------------------------------------------
+    let na = g.budget(4000, 25_000);
+    for i in 0..na {
+        let (y, m, d) = rand_date(g);
+        let n: i64 = match g.rng.below(8) {
+            0 => *g.rng.pick(&[0i64, 1, -1, 27, 28, 29, 30, 31, -31, 364, 365, 366, -364, -365, -366, 729, 730]),
+            1 => g.rng.range(0, 2000) as i64 - 1000,
+            2 => g.rng.range(0, 2_000_000) as i64 - 1_000_000,
+            3 => {
+                // land near year 0 from either side
+                let dd = own_days(y as i64, m, d);
+                -dd + g.rng.range(0, 1500) as i64 - 750
+            }
+            4 => *g.rng.pick(&[i32::MAX as i64, i32::MIN as i64, 100_000_000, -100_000_000, 12_000_000, -12_000_000]),
+            5 => {
+                // land near the i16 year limits
+                let dd = own_days(y as i64, m, d);
+                let target = if g.rng.chance(1, 2) { 32767 * 365 } else { -32768 * 365 };
+                target - dd + g.rng.range(0, 1000) as i64 - 500
+            }
+            _ => g.rng.range(0, 80_000) as i64 - 40_000,
+        };
+        if n >= i32::MIN as i64 && n <= i32::MAX as i64 { g.emit(format!("adddays {} {} {} {}", y, m, d, n)); }
+        let (y2, m2, d2) = if i % 3 == 0 { (y + g.rng.range(0, 2) as i32 - 1, g.rng.range(1, 12) as u32, 1) } else { rand_date(g) };
+        let (y2, m2, d2) = if i % 7 == 0 { (y, m, d) } else { (y2.clamp(-32768, 32767), m2, d2) };
+        g.emit(format!("until {} {} {} {} {} {}", y, m, d, y2, m2, d2));
+        g.emit(format!("cmp {} {} {} {} {} {}", y, m, d, y2, m2, d2));
+        if i % 4 == 0 {
+            let (h1, h2) = (g.rng.range(0, 25), g.rng.range(0, 25));
+            g.emit(format!("dhcmp {} {} {} {} {} {} {} {}", y, m, d, h1, y2, m2, d2, h2));
+            let (rd, rm) = (g.rng.range(0, 32), g.rng.range(0, 13));
+            g.emit(format!("rawcmp {} {} {} {} {} {} {} {}", y, m, rd, h1, y2, rm, d2, h2));
+        }
+    }
+    // dense: every offset −800..800 from dates around year 0 and an ordinary year
+    for (y, m, d) in [(0, 1, 1), (0, 12, 31), (1, 1, 1), (-1, 1, 1), (-1, 12, 31), (-2, 6, 15), (1444, 11, 11)] {
+        let step = if g.thorough { 1 } else { 3 };
+        for n in (-800..=800).step_by(step) { g.emit(format!("adddays {} {} {} {}", y, m, d, n)); }
+    }
+    g.count("arithmetic");
+
+    // 7. fast_digit_parse -----------------------------------------------------------------
+    let nf = g.budget(1500, 10_000);
+    for _ in 0..nf {
+        let mut b = [0u8; 8];
+        for x in b.iter_mut() { *x = b'0' + g.rng.below(10) as u8; }
+        g.emit(format!("fdp {}", u64::from_le_bytes(b)));
+        let pos = g.rng.below(8);
+        let mut c = b;
+        c[pos] = match g.rng.below(6) { 0 => 0x2f, 1 => 0x3a, 2 => 0x2e, 3 => g.rng.below(256) as u8, 4 => b[pos] | 0x80, _ => b[pos] ^ (1 << g.rng.below(8)) };
+        g.emit(format!("fdp {}", u64::from_le_bytes(c)));
+        if g.rng.chance(1, 4) { let v = g.rng.next(); g.emit(format!("fdp {}", v)); }
+    }
+    for pos in 0..8 { for v in 0..=255u8 { let mut b = *b"14441111"; b[pos] = v; g.emit(format!("fdp {}", u64::from_le_bytes(b))); } }
+    for v in [0u64, u64::MAX, 0x3030303030303030, 0x3939393939393939, 0x3a30303030303030, 0x2f2f2f2f2f2f2f2f] { g.emit(format!("fdp {}", v)); }
+    let (nblk, per) = if g.thorough { (48, 1_000_000) } else { (2, 100_000) };
+    for k in 0..nblk { let seed = g.rng.next() % 1_000_000_007 + k; g.emit(format!("fdp-block {} {}", seed, per)); }
+    g.count("fast-digit-parse");
 }
 
 pub fn tables() -> String {
-    String::new()
+    // DAYS_PER_MONTH as observed through Date::from_ymd_opt, julian_ordinal_day through to_binary
+    let mut dpm = vec![0u64; 13];
+    for m in 1..=12u8 {
+        let mut k = 0u64;
+        for d in 1..=40u8 { if Date::from_ymd_opt(1, m, d).is_some() { k = d as u64; } }
+        dpm[m as usize] = k;
+    }
+    let mut start = vec![];
+    for m in 1..=12u8 {
+        let b = Date::from_ymd_opt(1, m, 1).map(|d| d.to_binary()).unwrap_or(0) as i64;
+        start.push((b / 24 - 5001 * 365) as u64);
+    }
+    let mut s = String::new();
+    s.push_str(&crate::tables::emit_nat_table("dateDaysPerMonth", "days of month `m` accepted by `Date::from_ymd_opt` (index 0 unused)", &dpm));
+    s.push_str(&crate::tables::emit_nat_table("dateMonthStart", "0-based day of the year on which month `m+1` starts, read off `Date::to_binary`", &start));
+    s.push('\n');
+    s
 }
